@@ -16,7 +16,7 @@ from typing import Any, Optional
 
 from .frontend import PACKAGES, AnalysisError, ModuleInfo, Program
 
-CACHE_DIR = os.path.join(os.path.dirname(os.path.dirname(os.path.abspath(__file__))), ".cache")
+CACHE_DIR = os.environ.get("VERIF_CACHE_DIR") or os.path.join(os.path.dirname(os.path.dirname(os.path.abspath(__file__))), ".cache")
 CACHE_VERSION = 3
 
 
